@@ -542,13 +542,15 @@ def execute(env, attr, init, prog, created=False, source=None):
                         mm = {'n': 'sortRaise', 'perm': perm}
                     else:
                         res.model_valid = False
-                if st.get('dead') == 'deleted':
+                if rerr is not None and rerr == merr and canon(x) != canon(y):
+                    # both raised, but the part of the change that happened before the exception differs (Pony converts the iterable
+                    # first, plain Python consumes it while changing the list): not the property; the program ends here
+                    res.stopped = True
+                elif st.get('dead') == 'deleted':
                     if canon(x) != canon(y): res.mirror_diffs.append({'at': idx, 'what': 'value of the wrapper of a deleted object', 'real': canon(x), 'mirror': canon(y)})
                 elif st.get('dead'):
                     check_mirror(idx)
-                elif rerr is not None and rerr == merr and (canon(rootval()) != canon(st['mirror']) or canon(x) != canon(y)):
-                    # both raised, but the part of the change that happened before the exception differs (Pony converts the iterable
-                    # first, plain Python consumes it while changing the list): not the property; the program ends here
+                elif rerr is not None and rerr == merr and canon(rootval()) != canon(st['mirror']):
                     res.stopped = True
                 else:
                     check_mirror(idx)
